@@ -39,6 +39,10 @@ COLS = {
     "Sepal.Length": [5.1, 4.9, 4.7, 4.6, 5.0],
     "Sepal.Width": [3.5, 3.0, 3.2, 3.1, 3.6],
     "Sepal": [1.0, 2.0, 1.0, 2.0, 3.0],
+    # categorical columns: one with a single observed level (its terms are encoded into ZERO columns next to an
+    # intercept, yet the column is still evaluated) and an ordinary one
+    "D": ["k", "k", "k", "k", "k"],
+    "G": ["p", "q", "r", "p", "q"],
     "lo": [0.0, 1.0, 1.0, 2.0, 0.5],
     "hi": [3.0, 3.0, 2.5, 3.0, 4.0],
 }
@@ -106,6 +110,15 @@ def formulas_a(rng, thorough):
         add(f"poly({a}, 2) + bs({b}, df=3)", "stateful-transform", {a, b})
         add(f"C({a}) + {b}", "stateful-transform", {a, b})
         add(f"C({a}, contr.sum) + {b}", "transform-constant", {a, b})
+        # terms that are encoded into zero columns (single-level factor under full-rank coding with an intercept),
+        # next to ordinary categorical terms; the column is still read, so it is still required
+        add(f"D + {a}", "zero-column-term", {"D", a})
+        add(f"C(D) + {a}:{b}", "zero-column-term", {"D", a, b})
+        add(f"{a} ~ {b} + C(D)", "zero-column-term", {"D", a, b})
+        add(f"G + D + {a}", "zero-column-term", {"G", "D", a})
+        add(f"D:{a} + {a} + C(G):{b}", "zero-column-term", {"D", "G", a, b})
+        add(f"C(D, levels=['k']) + {a}", "zero-column-term", {"D", a})
+        add(f"{a} + D - 1", "categorical", {"D", a})
         # names in every argument position of a call: positional, keyword, nested inside a keyword
         add(f"np.clip({a}, a_min=lo, a_max=hi) + {b}", "keyword-argument", {a, b, "lo", "hi"}, "np")
         add(f"np.clip({a}, a_min=np.abs({b}), a_max=10)", "keyword-argument", {a, b}, "np")
@@ -213,6 +226,32 @@ def check_required(b, counts, formula, kind, reads, ctxname, before_ok, extra_co
     except Exception:
         return  # not materializable on the full data: nothing to say about the materialized spec
     run_phase("after", GET_AFTER, lambda: spec.required_variables, lambda d: spec.get_model_matrix(d, context=context))
+    # every data column that a factor evaluates is reported as a data variable of the materialized spec, and for
+    # formulas whose free value-names are all data columns the set is the one reported before materialization
+    # (kinds with a known, separately reported naming difference are left to the sufficiency clauses above)
+    if kind not in ("attribute", "attribute-call", "column-named-like-transform"):
+        code = (HEAD + f"data = {frame_src(cols)}\ncontext = {CTX_SRC[ctxname]}\nformula = {formula!r}\n"
+                "spec = model_matrix(formula, data, context=context).model_spec\n"
+                "after = sorted(str(v) for v in spec.required_variables)\n"
+                "leaves = [spec] if hasattr(spec, 'variables_by_source') else list(spec._flatten())  # ModelSpecs: union over its parts\n"
+                "by_source = sorted({str(v) for leaf in leaves for v in leaf.variables_by_source.get('data', ())})\n"
+                f"assert after == by_source == {sorted(reads)!r}, (after, by_source)\n"
+                + ("assert after == sorted(str(v) for v in Formula(formula).required_variables)\n" if before_ok else ""))
+        w = dict(base, code=code)
+        b.case(("reported", formula, tuple(cols), ctxname), nontrivial=len(reads) >= 2)
+        try:
+            after = sorted(str(v) for v in spec.required_variables)
+            leaves = [spec] if hasattr(spec, "variables_by_source") else list(spec._flatten())  # ModelSpecs: union over its parts
+            by_source = sorted({str(v) for leaf in leaves for v in leaf.variables_by_source.get("data", ())})
+            before = sorted(str(v) for v in Formula(formula).required_variables) if before_ok else None
+        except Exception as e:  # outcome of the code under test
+            _fail(b, counts, "C17.required.after.reports-data-columns", f"{kind}:raises-{type(e).__name__}", w, f"{type(e).__name__}: {e}")
+            return
+        if after != sorted(reads) or by_source != sorted(reads):
+            _fail(b, counts, "C17.required.after.reports-data-columns", kind, w,
+                  f"the formula evaluates the data columns {sorted(reads)}; required_variables = {after}, variables_by_source['data'] = {by_source}")
+        elif before is not None and before != after:
+            _fail(b, counts, "C17.required.before-equals-after", kind, w, f"before materialization {before}, after {after}")
 
 
 # ----------------------------------------------------------------------------- B. resolution order
@@ -488,7 +527,7 @@ def run_bounded(ctx):
         with ctx.bounded(
             "required-variables",
             rule="formula templates (plain, two-sided, nested calls, python expressions, attribute access, quoted names, data columns "
-                 "named like transforms, context constants, stateful transforms, keyword/positional/nested call arguments, dotted column names, back-ticked non-identifier names inside Python factors) instantiated over ordered pairs of x,y,z (+ 40/400 seeded "
+                 "named like transforms, context constants, stateful transforms, keyword/positional/nested call arguments, dotted column names, back-ticked non-identifier names inside Python factors, single-level factors whose terms get zero columns) instantiated over ordered pairs of x,y,z (+ 40/400 seeded "
                  "random formulas) x 2 data column sets (exactly the read columns / plus unrelated columns) x "
                  "phase before/after; each case restricts the data to the reported set and then drops every reported column in turn; "
                  "non-trivial = the formula reads >= 2 columns",
